@@ -208,7 +208,7 @@ STEP_RE = re.compile(r'^S (\S*) (\S*) (?:PANIC|REPLY=(\d) NABS=(\d+) NWF=(\d+) A
 
 def run_drv(trace, noabs=False, timeout=600):
     """returns list of step dicts and the DONE dict"""
-    rc, o, e = sh([os.path.join(BIN, 'drv'), trace] + (['noabs'] if noabs else []), timeout=timeout)
+    rc, o, e = sh('ulimit -s unlimited 2>/dev/null || ulimit -s 4000000; exec %s seq %s %s' % (os.path.join(BIN, 'drv'), trace, 'noabs' if noabs else ''), timeout=timeout)
     steps, done = [], {}
     for line in o.splitlines():
         m = STEP_RE.match(line)
